@@ -89,7 +89,7 @@ func (Engine) Describe(prop string) kernel.Describe {
 		d.FaultKinds = []string{"sig.other-signer", "sig.other-state", "sig.replay", "sig.duplicate", "sig.random", "sig.empty", "sig.nil", "sig.short", "wrong-phase call"}
 	case "C02":
 		d.Rule = "reach a current state by accepted updates, then offer valid successors, single-condition mutants and multi-condition mutants to Update and CheckUpdate (and allocations to Init); err==nil must equal an independent reference predicate written from the property statement; refusals leave the machine unchanged and unsigned. Evaluations = candidate checks. Non-trivial run = at least one accepted and one refused candidate at a reached state; distinct = distinct scenario digests."
-		d.FaultKinds = append([]string{}, gen.Mutations...)
+		d.FaultKinds = append([]string{"slow app callback vs. caller's deadline through the persisting wrapper (4 % of the runs, synctest bubble)"}, gen.Mutations...)
 	case "C09":
 		d.Rule = "reference automaton written from the doc comments (precondition on phase, signature slots, final flag; resulting phase); after each call err==nil iff the precondition holds, phase/staged/current as documented, byte-identical snapshot on error. Enumerated part: all sequences of a fixed length over the canonical alphabet after 8 prefixes for both indices; seeded part: model-guided random programs with wrong-phase calls. Non-trivial run = reached at least 4 distinct abstract states; distinct = distinct scenario digests."
 		d.FaultKinds = []string{"wrong-phase call", "invalid candidate", "bad signature", "duplicate signature"}
